@@ -81,7 +81,7 @@ def simulate(out_bytes, acc, seed, n_swarm=4, extremes=False, spilling=False):
     inf = runtime.Inference(plan, pols, rngs).run()
     facts = dict(arena_size=plan.arena_size, arena_touch_max=inf.arena_touch_max, n_ops=len(m.ops), n_npu=len(plan.eops),
                  n_tensors=len(m.tensors))
-    return dict(viol=[dict(v) for v in inf.viol], stats=inf.stats, facts=facts, failing=inf.failing, model=m, plan=plan)
+    return dict(viol=[dict(v) for v in inf.viol], stats=inf.stats, facts=facts, failing=inf.failing, model=m, plan=plan, dead_stores=inf.dead_stores)
 
 
 def run_recipe(recipe, opts, seed, n_swarm=4, extremes=False):
@@ -104,5 +104,5 @@ def run_recipe(recipe, opts, seed, n_swarm=4, extremes=False):
     res["src"] = src
     res["out_bytes"] = cr["out_bytes"]
     sim = simulate(cr["out_bytes"], acc_of(opts), seed, n_swarm, extremes, is_spilling(opts))
-    res.update(viol=sim["viol"], stats=sim["stats"], facts=sim["facts"], failing=sim["failing"], model=sim["model"], plan=sim["plan"])
+    res.update(viol=sim["viol"], stats=sim["stats"], facts=sim["facts"], failing=sim["failing"], model=sim["model"], plan=sim["plan"], dead_stores=sim["dead_stores"])
     return res
